@@ -37,7 +37,8 @@ def probe():
     global _PROBE
     if _PROBE is None:
         forms = [f'={f}(A1,{n})' for _, f in FUNS for n in NS] + ['=A1%'] + [f'={f}(A1,B1)' for _, f in FUNS]
-        _PROBE = repo.Probe(forms)
+        # B1 (the digit count of the last three formulas) holds a whole number in the workbook; the runs override it
+        _PROBE = repo.Probe(forms, {(1, 0): 2})
     return _PROBE
 
 
